@@ -91,3 +91,22 @@ Proof.
   apply (sqrt2_gen_increasing 1 4 4 (1/10) (6/10) (1/10) (6/10) 0); unfold red_L, red_bl, red_bu; rewrite ?Q; try lra.
   unfold Rmin. destruct (Rle_dec _ _); lra.
 Qed.
+
+(* the logarithmic ("concave") monotonic branch is strictly increasing as a function on [0, N], for every l1 > 0 (mean-value theorem on
+   concave_positive) *)
+Lemma concave_increasing L N Nn dl du l1 : 0 < N -> 0 < Nn -> 0 < dl -> 0 < du -> 0 < l1 ->
+  let f := fun i => S_mono_concave_main L N Nn dl du l1 (S_mono_concave_l2 L N Nn dl du l1) (S_mono_concave_l3 L N Nn dl du l1)
+                      (S_mono_concave_r2 L N Nn dl du l1) (S_mono_concave_r3 L N Nn dl du l1) i in
+  forall x y, 0 <= x -> x < y -> y <= N -> f x < f y.
+Proof.
+  intros HN HNn Hl Hu H1 f x y H0 Hxy HyN.
+  set (df := fun t => (l1 / (t / Nn + S_mono_concave_l2 L N Nn dl du l1) - S_mono_concave_l3 L N Nn dl du l1 +
+                       (l1 / (S_mono_concave_r2 L N Nn dl du l1 + N / Nn - t / Nn) - S_mono_concave_r3 L N Nn dl du l1)) / Nn).
+  destruct (MVT_gen f x y df) as [c [Hc E]].
+  - rewrite Rmin_left, Rmax_right by lra. intros t Ht. apply (concave_d L N Nn dl du l1 HN HNn Hl Hu H1 t). lra.
+  - rewrite Rmin_left, Rmax_right by lra. intros t Ht. apply derivable_continuous_pt. apply ex_derive_Reals_0. exists (df t).
+    apply (concave_d L N Nn dl du l1 HN HNn Hl Hu H1 t). lra.
+  - rewrite Rmin_left, Rmax_right in Hc by lra.
+    assert (P : 0 < df c) by (apply (concave_positive L N Nn dl du l1 HN HNn Hl Hu H1 c); lra).
+    assert (0 < df c * (y - x)) by (apply Rmult_lt_0_compat; lra). lra.
+Qed.
